@@ -152,6 +152,66 @@ fn orient(p: &Point2, q: &Point2, r: &Point2) -> f64 {
     (q - p).x * (r - p).y - (q - p).y * (r - p).x
 }
 
+
+/// Farthest pair on convex polygons given directly (every rotation of the start vertex): strictly convex
+/// hulls of the subsets of a 5x5 lattice, where the distances from a vertex around the outline need not
+/// rise and fall only once
+fn judge_diam(case: &Case, l: &mut Local) {
+    let mk = || serde_json::to_value(case).unwrap();
+    let lat = gen::lattice2(5);
+    let mut pts: Vec<Point2> = case.idx.iter().map(|i| gen::p2(lat[*i], 1.0)).collect();
+    // reference hull (monotone chain, strictly convex, counter-clockwise)
+    pts.sort_by(|a, b| a.x.partial_cmp(&b.x).unwrap().then(a.y.partial_cmp(&b.y).unwrap()));
+    let mut lower: Vec<Point2> = Vec::new();
+    for p in pts.iter() {
+        while lower.len() >= 2 && orient(&lower[lower.len() - 2], &lower[lower.len() - 1], p) <= 0.0 {
+            lower.pop();
+        }
+        lower.push(*p);
+    }
+    let mut upper: Vec<Point2> = Vec::new();
+    for p in pts.iter().rev() {
+        while upper.len() >= 2 && orient(&upper[upper.len() - 2], &upper[upper.len() - 1], p) <= 0.0 {
+            upper.pop();
+        }
+        upper.push(*p);
+    }
+    lower.pop();
+    upper.pop();
+    lower.extend(upper);
+    let hull = lower;
+    if hull.len() < 3 {
+        return;
+    }
+    let mut best = 0.0f64;
+    for p in &hull {
+        for q in &hull {
+            best = best.max(d2(p, q));
+        }
+    }
+    for r in 0..hull.len() {
+        let mut v = hull.clone();
+        v.rotate_left(r);
+        let poly = match parry2d_f64::shape::ConvexPolygon::from_convex_polyline(v.clone()) {
+            Some(p) => p,
+            None => continue,
+        };
+        l.eval();
+        l.bucket("convex polygon given directly, every start vertex");
+        match guarded(|| farthest_pair_indices(&poly)) {
+            Ok((a, b)) => {
+                let hv = poly.points();
+                let got = d2(&hv[a], &hv[b]);
+                l.outcome(hash_of(&(hull.len(), (got - best).abs() <= 1e-12, 5u8)));
+                l.check("farthest pair is the true diameter", "", (got - best).abs() <= 1e-12, mk, || format!("polygon {:?}: pair ({}, {}) at {} but the diameter is {}", v, a, b, got, best));
+            }
+            Err(e) => {
+                l.check("farthest pair returns", "panic", false, mk, || e.clone());
+            }
+        }
+    }
+}
+
 fn judge_hull(case: &Case, l: &mut Local) {
     let mk = || serde_json::to_value(case).unwrap();
     let lat = gen::lattice2(3);
@@ -293,6 +353,16 @@ fn sample_mesh(which: usize) -> Mesh {
         1 => {
             let (v, f) = c02::solid("tetrahedron");
             Mesh::new(v, f, false)
+        }
+        3 => {
+            // a face of negligible area between two ordinary ones: it takes (next to) no samples, and must not
+            // shift the faces after it
+            let v = vec![
+                Point3::new(0.0, 0.0, 0.0), Point3::new(1.0, 0.0, 0.0), Point3::new(0.0, 1.0, 0.0),
+                Point3::new(2.0, 0.0, 0.0), Point3::new(2.000001, 0.0, 0.0), Point3::new(2.0, 0.000001, 0.0),
+                Point3::new(3.0, 0.0, 1.0), Point3::new(6.0, 0.0, 1.0), Point3::new(3.0, 1.0, 1.0),
+            ];
+            Mesh::new(v, vec![[0, 1, 2], [3, 4, 5], [6, 7, 8]], false)
         }
         _ => Mesh::new(vec![Point3::new(0.0, 0.0, 0.0), Point3::new(10.0, 0.0, 0.0), Point3::new(0.0, 0.1, 0.0), Point3::new(0.0, 0.0, 1.0)], vec![[0, 1, 2], [0, 3, 1]], false),
     }
@@ -476,6 +546,7 @@ pub fn judge(case: &Case, l: &mut Local) {
         }
         "poisson" => judge_poisson(case, l),
         "hull" => judge_hull(case, l),
+        "diam" => judge_diam(case, l),
         "polygon" => judge_polygon(case, l),
         "uniform" => judge_uniform(case, l),
         "dense" => judge_dense(case, l),
@@ -579,6 +650,28 @@ pub fn cases(tier: Tier) -> Vec<Case> {
             out.push(c("hull", dup, 0, 0.0));
         }
     }
+    // diameters: every subset of 3..4 (thorough 5) points of the 5x5 lattice
+    {
+        let kmax = tier.pick(4, 5);
+        fn subsets(start: usize, cur: &mut Vec<usize>, kmax: usize, out: &mut Vec<Vec<usize>>) {
+            if cur.len() >= 3 {
+                out.push(cur.clone());
+            }
+            if cur.len() == kmax {
+                return;
+            }
+            for i in start..25 {
+                cur.push(i);
+                subsets(i + 1, cur, kmax, out);
+                cur.pop();
+            }
+        }
+        let mut all = Vec::new();
+        subsets(0, &mut Vec::new(), kmax, &mut all);
+        for m in all {
+            out.push(c("diam", m, 0, 0.0));
+        }
+    }
     // polygons: every cyclic sequence of 3..tier distinct lattice points (simplicity tested inside)
     let maxlen = tier.pick(5, 6);
     fn rec(cur: &mut Vec<usize>, maxlen: usize, out: &mut Vec<Vec<usize>>) {
@@ -602,7 +695,7 @@ pub fn cases(tier: Tier) -> Vec<Case> {
         out.push(c("polygon", s, 0, 0.0));
     }
     // scripted uniform sampling: all draw triples over the 6-value alphabet
-    for which in 0..3 {
+    for which in 0..4 {
         for a in 0..6 {
             for b in 0..6 {
                 for d in 0..6 {
@@ -629,9 +722,9 @@ pub fn cases(tier: Tier) -> Vec<Case> {
 
 pub fn run(tier: Tier) -> i32 {
     let mut cx = Ctx::new("C15", tier, "exploration");
-    cx.rule = "kd-trees: every multiset of <= 4 points of the 3x3 lattice and <= 3 of the 2x2x2 lattice (duplicates included), 4 structured large sets (8x8 grid, 40 duplicates, 1000 collinear, two clusters) x a half-integer query grid x k in {1,2,3,n,n+2} x 5 radii; partial tree: every ordered subset of <= 4 of 6 points; Poisson disk: every ordering of every subset (2..5) of 6 lattice points x 4 radii; hulls: every subset of 3..6 lattice points (+ duplicates); every simple lattice polygon with <= 5 (thorough 6) vertices in both orientations for order detection, from_points_ccw and ball pivot at 3 radii; mesh sampling with the RNG owned by the explorer: all 216 draw triples per mesh for sample_uniform, dense sampling at 3 spacings, the Poisson sampler's shuffle explored with <= 2 non-default draws. distinct = distinct cases".into();
+    cx.rule = "kd-trees: every multiset of <= 4 points of the 3x3 lattice and <= 3 of the 2x2x2 lattice (duplicates included), 4 structured large sets (8x8 grid, 40 duplicates, 1000 collinear, two clusters) x a half-integer query grid x k in {1,2,3,n,n+2} x 5 radii; partial tree: every ordered subset of <= 4 of 6 points; Poisson disk: every ordering of every subset (2..5) of 6 lattice points x 4 radii; hulls: every subset of 3..6 lattice points (+ duplicates); farthest pair on the hull of every subset of 3..4 (thorough 5) points of a 5x5 lattice given as a polygon from every start vertex; every simple lattice polygon with <= 5 (thorough 6) vertices in both orientations for order detection, from_points_ccw and ball pivot at 3 radii; mesh sampling with the RNG owned by the explorer: all 216 draw triples per mesh for sample_uniform, dense sampling at 3 spacings, the Poisson sampler's shuffle explored with <= 2 non-default draws. distinct = distinct cases".into();
     cx.bounds = json!({"kd2_multiset": 4, "kd3_multiset": 3, "partial_subset": 4, "poisson_subset": 5, "polygon_vertices": tier.pick(5, 6), "rng_alphabet": 6, "shuffle_deviations": 2});
-    cx.require(&["kd-tree with duplicate points", "kd-tree with distinct points", "3D kd-tree", "structured large kd-tree", "kd-tree over gridded mesh samples", "index-remapped partial tree", "poisson-disk ordering", "collinear point set", "point set with duplicates", "general point set", "counter-clockwise simple polygon", "clockwise simple polygon", "ball pivot run", "scripted uniform draw", "dense sampling", "scripted shuffle of the mesh Poisson sampler"]);
+    cx.require(&["kd-tree with duplicate points", "kd-tree with distinct points", "3D kd-tree", "structured large kd-tree", "kd-tree over gridded mesh samples", "index-remapped partial tree", "poisson-disk ordering", "collinear point set", "point set with duplicates", "general point set", "convex polygon given directly, every start vertex", "counter-clockwise simple polygon", "clockwise simple polygon", "ball pivot run", "scripted uniform draw", "dense sampling", "scripted shuffle of the mesh Poisson sampler"]);
     cx.assume("ties exactly on the k-th neighbour or the radius boundary are gray (either answer accepted); uniformity beyond 'the face is the inverse-CDF image of the draw' is not claimed");
     let cs = cases(tier);
     let l = sweep(&cs, judge);
